@@ -41,6 +41,11 @@ def _op_chain(f: Func, attr_chain: str = 'pyval.op') -> Dict[str, str]:
             syms = [const_str(c.args[0]) for st in yes for c in ast.walk(st)
                     if isinstance(c, ast.Call) and call_name(c) == '_output' and c.args]
             syms = [s for s in syms if s is not None]
+            if not syms:
+                # the symbol chosen once and written later: `op_text = ' and '` ... `self._output(op_text, ...)`
+                out_vars = {c.args[0].id for c in ast.walk(f.node) if isinstance(c, ast.Call) and call_name(c) == '_output' and c.args and isinstance(c.args[0], ast.Name)}
+                syms = [const_str(a.value) for st in yes for a in ast.walk(st) if isinstance(a, ast.Assign) and const_str(a.value) is not None and
+                        any(isinstance(t_, ast.Name) and t_.id in out_vars for t_ in a.targets)]
             for k in ks:
                 d = dotted(k) or ''
                 if d.startswith('ast.') and len(syms) == 1:
@@ -507,11 +512,30 @@ def run(repo: Repo, chk: Check, thorough: bool = False) -> None:
         if isinstance(e, ast.Name):
             return [v for v in _values_of(vs, e.id) if not (isinstance(v, ast.Constant) and v.value is None)]
         return [e]
+    def _helper_compares(t: ast.AST, word: str) -> List[ast.AST]:
+        """`self._is_typing_form(value, 'Literal')`: the expressions the private helper compares with the parameter that receives `word`."""
+        out: List[ast.AST] = []
+        if isinstance(t, ast.Call) and call_name(t).startswith('_'):
+            for g_ in [g for g in repo.funcs.values() if g.mod is vs.mod and g.name == call_name(t) and (g.cls is None or g.cls is vs.cls)]:
+                gpar = [p_.arg for p_ in g_.params() if p_.arg not in ('self', 'cls')]
+                recv = [gp_ for gp_, a_ in zip(gpar, t.args) if isinstance(a_, ast.Constant) and a_.value == word]
+                for c_ in g_.walk():
+                    if isinstance(c_, ast.Compare) and len(c_.ops) == 1 and isinstance(c_.ops[0], ast.Eq) and norm(c_.comparators[0]) in recv:
+                        out.append(c_.left)
+        return out
     for a in raw:
         facts = [(t, pol) for t, pol in cfv.dominating_tests(a) if pol]
         strs = {c.value for t, _ in facts for c in ast.walk(t) if isinstance(c, ast.Constant) and isinstance(c.value, str)}
+        if 'Annotated' in strs and 'Literal' not in strs:
+            continue        # a local alias of the slice inside the Annotated branch (`args = node.slice`): that branch has its own obligation below
         cmps = [t for t, _ in facts if isinstance(t, ast.Compare) and len(t.ops) == 1 and isinstance(t.ops[0], ast.Eq) and
                 isinstance(t.comparators[0], ast.Constant) and t.comparators[0].value == 'Literal']
+        for t, _ in facts:
+            for lv in _helper_compares(t, 'Literal'):
+                if isinstance(lv, ast.Attribute) and lv.attr == 'id':
+                    name_ok = True
+                if isinstance(lv, ast.Attribute) and lv.attr == 'attr':
+                    attr_ok = True
         if strs - {'Literal'}:
             restricted.append(norm(facts[-1][0])[:80] if facts else '?')
             continue
@@ -533,6 +557,8 @@ def run(repo: Repo, chk: Check, thorough: bool = False) -> None:
     # Annotated[T, metadata...]: only T is a type; the metadata are arbitrary values, a string there IS a string
     ann_branch = False
     for n in vs.walk():
+        if any(isinstance(lv, ast.Attribute) and lv.attr in ('id', 'attr') for lv in _helper_compares(n, 'Annotated')):
+            ann_branch = True
         if isinstance(n, ast.Compare) and len(n.ops) == 1 and isinstance(n.ops[0], ast.Eq) and const_str(n.comparators[0]) == 'Annotated' and \
                 any(isinstance(lv, ast.Attribute) and lv.attr in ('id', 'attr') for lv in _compared(n.left)):
             ann_branch = True
